@@ -1,0 +1,17 @@
+//! Hooks into `driver` (child module: sees the private fields of `SwarmDriver`).
+//!
+//! Pass-through only: the two command receivers that `SwarmDriver::run` polls are made pollable from
+//! outside, so an external scheduler can play the run loop one command at a time.
+
+use super::SwarmDriver;
+use crate::cmd::{LocalSwarmCmd, NetworkSwarmCmd};
+
+/// `local_cmd_receiver.try_recv()` (what the run loop takes from its `LocalSwarmCmd` channel).
+pub fn try_recv_local_cmd(driver: &mut SwarmDriver) -> Option<LocalSwarmCmd> {
+    driver.local_cmd_receiver.try_recv().ok()
+}
+
+/// `network_cmd_receiver.try_recv()` (what the run loop takes from its `NetworkSwarmCmd` channel).
+pub fn try_recv_network_cmd(driver: &mut SwarmDriver) -> Option<NetworkSwarmCmd> {
+    driver.network_cmd_receiver.try_recv().ok()
+}
